@@ -149,6 +149,12 @@ func (rule Properties) AsRewriteRule(pkg string) (builder.RewriteRule, error) {
 		return nil, err
 	}
 
+	for _, field := range rule.Set {
+		if err := field.Type.CheckWellFormed(); err != nil {
+			return nil, fmt.Errorf("properties: property '%s': %w", field.Name, err)
+		}
+	}
+
 	return builder.Properties(
 		selector,
 		rule.Set,
@@ -223,6 +229,15 @@ func (rule AddOption) AsRewriteRule(pkg string) (builder.RewriteRule, error) {
 		return nil, err
 	}
 
+	if err := checkArguments(rule.Option.Arguments); err != nil {
+		return nil, fmt.Errorf("add_option: option '%s': %w", rule.Option.Name, err)
+	}
+	for _, assignment := range rule.Option.Assignments {
+		if err := checkAssignmentValue(assignment.Value); err != nil {
+			return nil, fmt.Errorf("add_option: option '%s': assignment to '%s': %w", rule.Option.Name, assignment.Path, err)
+		}
+	}
+
 	return builder.AddOption(selector, rule.Option), nil
 }
 
@@ -237,7 +252,68 @@ func (rule AddFactory) AsRewriteRule(pkg string) (builder.RewriteRule, error) {
 		return nil, err
 	}
 
+	if err := checkArguments(rule.Factory.Args); err != nil {
+		return nil, fmt.Errorf("add_factory: factory '%s': %w", rule.Factory.Name, err)
+	}
+	for _, call := range rule.Factory.OptionCalls {
+		if err := checkOptionCallParameters(call.Parameters); err != nil {
+			return nil, fmt.Errorf("add_factory: factory '%s': call to '%s': %w", rule.Factory.Name, call.Name, err)
+		}
+	}
+
 	return builder.AddFactory(selector, rule.Factory), nil
+}
+
+// Types written by hand in a builder transformation go through the same gate as
+// the ones written in a schema transformation: a kind that announces a
+// definition the type does not carry is an error of the configuration.
+func checkArguments(args []ast.Argument) error {
+	for _, arg := range args {
+		if err := arg.Type.CheckWellFormed(); err != nil {
+			return fmt.Errorf("argument '%s': %w", arg.Name, err)
+		}
+	}
+
+	return nil
+}
+
+func checkAssignmentValue(value veneers.AssignmentValue) error {
+	if value.Argument != nil {
+		if err := value.Argument.Type.CheckWellFormed(); err != nil {
+			return fmt.Errorf("argument '%s': %w", value.Argument.Name, err)
+		}
+	}
+	if value.Envelope != nil {
+		for _, field := range value.Envelope.Values {
+			if err := checkAssignmentValue(field.Value); err != nil {
+				return fmt.Errorf("field '%s': %w", field.Field, err)
+			}
+		}
+	}
+
+	return nil
+}
+
+func checkOptionCallParameters(params []ast.OptionCallParameter) error {
+	for _, param := range params {
+		if param.Argument != nil {
+			if err := param.Argument.Type.CheckWellFormed(); err != nil {
+				return fmt.Errorf("argument '%s': %w", param.Argument.Name, err)
+			}
+		}
+		if param.Constant != nil {
+			if err := param.Constant.Type.CheckWellFormed(); err != nil {
+				return fmt.Errorf("constant: %w", err)
+			}
+		}
+		if param.Factory != nil {
+			if err := checkOptionCallParameters(param.Factory.Parameters); err != nil {
+				return err
+			}
+		}
+	}
+
+	return nil
 }
 
 /******************************************************************************
